@@ -690,7 +690,7 @@ package machine
 //@   requires locks:  unlocked(t.Machine.activeStatesMx)
 //@   requires phase:  ghost.phase <= 3
 //@   ghostset phase := 3
-//@   assigns Transition.latestHandlerToState, Transition.latestHandlerIsEnter, Transition.latestHandlerIsFinal, t.TargetIndexes, t.cacheTargetStates, Machine.panicCaught, Machine.queue, Machine.queueLen, Machine.queueTicksPending, Machine.logEntries, ghost.faults, ghost.vetoes
+//@   assigns Transition.latestHandlerToState, Transition.latestHandlerIsEnter, Transition.latestHandlerIsFinal, t.TargetIndexes, t.cacheTargetStates, Machine.panicCaught, Machine.queue, Machine.queueLen, Machine.queueTicksPending, Machine.logEntries, Step.IsSelf, ghost.faults, ghost.vetoes
 //@   ensures absorbed: r == Executed ==> ghost.vetoes - old(ghost.vetoes) == len(old(*t.cacheTargetStates)) - len(*t.cacheTargetStates)
 //@   ensures stopped:  r == Canceled ==> ghost.vetoes - old(ghost.vetoes) > len(old(*t.cacheTargetStates)) - len(*t.cacheTargetStates)
 //@   ensures res:     r == Executed || r == Canceled
